@@ -55,14 +55,33 @@ pub enum PairState {
     /// the paired operation finished while the first one was parked: it ran inside it
     RanInside(String),
     /// it did not finish within the grace period: it waits for something the first one holds
-    Blocked(std::sync::mpsc::Receiver<String>),
+    Blocked(PairRx),
+}
+/// The answer channel of the second thread plus its join handle (the thread owns clones of
+/// the store; it must be gone before the process runs its exit handlers).
+pub struct PairRx {
+    rx: std::sync::mpsc::Receiver<String>,
+    handle: Option<std::thread::JoinHandle<()>>,
+}
+impl PairRx {
+    pub fn recv_timeout(&mut self, d: std::time::Duration) -> Result<String, ()> {
+        match self.rx.recv_timeout(d) {
+            Ok(r) => {
+                if let Some(h) = self.handle.take() {
+                    let _ = h.join();
+                }
+                Ok(r)
+            }
+            Err(_) => Err(()),
+        }
+    }
 }
 static PAIR_JOB: std::sync::Mutex<Option<PairJob>> = std::sync::Mutex::new(None);
 static PAIR_STATE: std::sync::Mutex<Option<PairState>> = std::sync::Mutex::new(None);
 
-pub fn spawn_pair(job: PairJob) -> std::sync::mpsc::Receiver<String> {
+pub fn spawn_pair(job: PairJob) -> PairRx {
     let (tx, rx) = std::sync::mpsc::channel();
-    std::thread::Builder::new()
+    let handle = std::thread::Builder::new()
         .stack_size(16 << 20)
         .spawn(move || {
             entropy::install(job.seed);
@@ -76,7 +95,7 @@ pub fn spawn_pair(job: PairJob) -> std::sync::mpsc::Receiver<String> {
             });
         })
         .expect("spawn pair thread");
-    rx
+    PairRx { rx, handle: Some(handle) }
 }
 
 pub fn arm_pause(at: u64, job: PairJob) {
@@ -93,7 +112,7 @@ pub fn join_pair() -> Result<(bool, String), String> {
     }
     match PAIR_STATE.lock().unwrap_or_else(|e| e.into_inner()).take() {
         Some(PairState::RanInside(r)) => Ok((true, r)),
-        Some(PairState::Blocked(rx)) => match rx.recv_timeout(std::time::Duration::from_secs(20)) {
+        Some(PairState::Blocked(mut rx)) => match rx.recv_timeout(std::time::Duration::from_secs(20)) {
             Ok(r) => Ok((false, r)),
             Err(_) => Err("DEADLOCK".into()),
         },
@@ -126,7 +145,7 @@ fn install_write_hook() {
                 let job = PAIR_JOB.lock().unwrap_or_else(|e| e.into_inner()).take();
                 if let Some(job) = job {
                     PAUSE_AT.store(0, Ordering::SeqCst);
-                    let rx = spawn_pair(job);
+                    let mut rx = spawn_pair(job);
                     // parked here: the second operation either finishes (it ran inside this
                     // one) or it does not (it waits for a lock this one holds)
                     let st = match rx.recv_timeout(std::time::Duration::from_millis(250)) {
